@@ -62,13 +62,28 @@ type c47Run struct {
 	CloseOK bool
 }
 
-const c47Injected = "ERR c47 injected setup failure"
+// error texts a failing setup step is answered with; "unknown" stands for Redis' unknown-command text naming the step's command
+var c47FailTexts = []string{
+	"ERR c47 injected setup failure",
+	"NOPERM this user has no permissions to run the command",
+	"LOADING Redis is loading the dataset in memory",
+	"NOPROTO unsupported protocol version",
+	"WRONGPASS invalid username-password pair or user is disabled.",
+	"unknown",
+}
+
+func c47FailText(kind string, cmd []string) string {
+	if kind == "unknown" {
+		return fmt.Sprintf("ERR unknown command '%s', with args beginning with: ", cmd[0])
+	}
+	return kind
+}
 
 func c47UserCmd(argv []string) bool { return len(argv) > 1 && argv[0] == "VREPLY" }
 
 func c47Reply(name string) resp.Value { return resp.Bulk("reply-of-" + name) }
 
-func c47RunOne(t *testing.T, v c47Vec, failStep int) (run c47Run) {
+func c47RunOne(t *testing.T, v c47Vec, failStep int, failText string) (run c47Run) {
 	var mu sync.Mutex
 	run.Snaps = map[int]fakeredis.ConnState{}
 	run.CredFor = map[int][2]string{}
@@ -99,7 +114,7 @@ func c47RunOne(t *testing.T, v c47Vec, failStep int) (run c47Run) {
 				mu.Unlock()
 			}
 			if failStep >= 0 && req == failStep {
-				return fakeredis.Fault{Kind: fakeredis.ErrorReply, Err: c47Injected}
+				return fakeredis.Fault{Kind: fakeredis.ErrorReply, Err: failText}
 			}
 			return fakeredis.Fault{}
 		}
@@ -261,6 +276,7 @@ type c47Case struct {
 	Vec      c47Vec   `json:"vec"`
 	FailStep int      `json:"fail_step"`
 	FailCmd  []string `json:"fail_cmd,omitempty"`
+	FailText string   `json:"fail_text,omitempty"` // the error reply the step gets
 }
 
 // c47CheckState compares the session state a connection had when it served its first user command with the configuration.
@@ -470,35 +486,50 @@ func c47Check(c *stat.Collector, rt stat.Fataler, cs c47Case, run c47Run, setup 
 		}
 	}
 	up := strings.ToUpper(failed[0])
+	classes = append(classes, "fail-text-"+strings.ToLower(strings.Fields(cs.FailText + " ?")[0]+map[bool]string{true: "-unknown-command"}[strings.Contains(cs.FailText, "unknown command")]))
+	fatal := func() {
+		if run.NewErr == nil {
+			fail("C47.failed-step-fails-connection", fmt.Sprintf("step %d %q was answered %q but NewClient returned no error; %s", cs.FailStep, failed, cs.FailText, describe()))
+		}
+		for _, call := range run.Calls {
+			if call.Err == nil || call.OK {
+				fail("C47.failed-step-fails-connection", fmt.Sprintf("step %d %q is answered %q on every new connection, yet call %q succeeded; %s", cs.FailStep, failed, cs.FailText, call.Name, describe()))
+			}
+		}
+		if len(userRecv) > 0 {
+			fail("C47.failed-step-fails-connection", fmt.Sprintf("step %d %q was answered %q, yet user commands were executed: %v", cs.FailStep, failed, cs.FailText, userRecv))
+		}
+	}
 	switch {
 	case up == "READONLY" || (up == "CLIENT" && len(failed) > 1 && strings.EqualFold(failed[1], "SETINFO")):
 		classes = append(classes, "failing-step-tolerated")
 		if !allOK {
 			fail("C47.tolerated-step", fmt.Sprintf("step %d %q failed, which must be tolerated, but the client did not work: %s", cs.FailStep, failed, describe()))
 		}
+	case up == "HELLO" && len(failed) > 1 && failed[1] == "2" && strings.Contains(cs.FailText, "unknown command"):
+		// the HELLO 2 of the RESP2 setup batch on a server that does not know HELLO: tolerated like on the no-HELLO personality
+		classes = append(classes, "failing-step-hello2-unknown-command")
+		if !allOK {
+			fail("C47.tolerated-step", fmt.Sprintf("step %d %q was answered %q (a server without HELLO), which the RESP2 setup tolerates, but the client did not work: %s", cs.FailStep, failed, cs.FailText, describe()))
+		}
+	case up == "HELLO" && len(failed) > 1 && failed[1] == "2":
+		// HELLO 2 of the RESP2 setup batch rejected for another reason: a failed setup step, not the no-HELLO fallback
+		classes = append(classes, "failing-step-hello2-fatal")
+		fatal()
 	case up == "HELLO":
-		classes = append(classes, "failing-step-hello")
+		// the HELLO 3 probe: an unknown-command reply is the RESP2 fallback; for other texts fallback or failure are both accepted
+		classes = append(classes, "failing-step-hello3-probe")
 	case resent:
 		classes = append(classes, "failing-step-resent-later")
 	default:
 		classes = append(classes, "failing-step-fatal")
-		if run.NewErr == nil {
-			fail("C47.failed-step-fails-connection", fmt.Sprintf("step %d %q was answered with an error but NewClient returned no error; %s", cs.FailStep, failed, describe()))
-		}
-		for _, call := range run.Calls {
-			if call.Err == nil || call.OK {
-				fail("C47.failed-step-fails-connection", fmt.Sprintf("step %d %q is answered with an error on every new connection, yet call %q succeeded; %s", cs.FailStep, failed, call.Name, describe()))
-			}
-		}
-		if len(userRecv) > 0 {
-			fail("C47.failed-step-fails-connection", fmt.Sprintf("step %d %q was answered with an error, yet user commands were executed: %v", cs.FailStep, failed, userRecv))
-		}
+		fatal()
 	}
 	return
 }
 
 func TestVerif_C47_Setup(t *testing.T) {
-	c := stat.For("C47", "setup-"+queueLabel()).Rule("generated option vectors {credentials: none / user+password / password only / AuthCredentialsFn (rotating users, or password only), ClientName, SelectDB 0-3, ClientTrackingOptions nil|OPTIN|OPTOUT|BCAST+PREFIX|NOLOOP variants, DisableCache, AlwaysRESP2, ClientNoTouch, ClientNoEvict, ClientSetInfo default|two values|disabled, Standalone.EnableRedirect (+ReplicaOnly)} x server personality {RESP3, HELLO unknown, HELLO answers proto 2} in a bubble; one user command through the pipelining connection, the blocking pool, a dedicated client and the stream pool; the fake's session state is captured right before the first user command of each connection and compared with the configuration; then, exhaustively for the vector, one run per setup command seen in the fault-free run with that command answered by an error on every new connection: READONLY / CLIENT SETINFO failures must be tolerated, a HELLO failure may fall back or fail, a step that is sent again later may be tolerated, any other failure must fail NewClient and every call with no user command executed; non-trivial = at least 4 options set, or a failing step")
+	c := stat.For("C47", "setup-"+queueLabel()).Rule("generated option vectors {credentials: none / user+password / password only / AuthCredentialsFn (rotating users, or password only), ClientName, SelectDB 0-3, ClientTrackingOptions nil|OPTIN|OPTOUT|BCAST+PREFIX|NOLOOP variants, DisableCache, AlwaysRESP2, ClientNoTouch, ClientNoEvict, ClientSetInfo default|two values|disabled, Standalone.EnableRedirect (+ReplicaOnly)} x server personality {RESP3, HELLO unknown, HELLO answers proto 2} in a bubble; one user command through the pipelining connection, the blocking pool, a dedicated client and the stream pool; the fake's session state is captured right before the first user command of each connection and compared with the configuration; then, exhaustively for the vector, one run per setup command seen in the fault-free run with that command answered by an error on every new connection: with a generated error text (ERR, NOPERM, LOADING, NOPROTO, WRONGPASS, or unknown command): READONLY / CLIENT SETINFO failures must be tolerated, a failure of the HELLO 3 probe may fall back or fail, the HELLO 2 of the RESP2 setup batch is tolerated only when rejected as an unknown command and is a failed step otherwise, a step that is sent again later may be tolerated, any other failure must fail NewClient and every call with no user command executed; non-trivial = at least 4 options set, or a failing step")
 	defer c.Flush()
 	c.Extra("exhaustive_dimension", "failing setup step: every setup command of the fault-free run of each generated vector")
 	if p := os.Getenv("VERIF_REPLAY_JSON"); p != "" {
@@ -507,11 +538,11 @@ func TestVerif_C47_Setup(t *testing.T) {
 		if err := json.Unmarshal(b, &cs); err != nil {
 			t.Fatal(err)
 		}
-		base := c47RunOne(t, cs.Vec, -1)
+		base := c47RunOne(t, cs.Vec, -1, "")
 		setup := c47Setup(base.Events, 0)
 		run := base
 		if cs.FailStep >= 0 {
-			run = c47RunOne(t, cs.Vec, cs.FailStep)
+			run = c47RunOne(t, cs.Vec, cs.FailStep, cs.FailText)
 		}
 		for _, e := range run.Events {
 			e.Argv = trunc(e.Argv)
@@ -525,7 +556,7 @@ func TestVerif_C47_Setup(t *testing.T) {
 		v := genC47Vec(rt)
 		cs := c47Case{Vec: v, FailStep: -1}
 		saveCase("c47", cs)
-		base := c47RunOne(t, v, -1)
+		base := c47RunOne(t, v, -1, "")
 		if base.Res.Frozen {
 			c.Inconclusive("virtual-clock-freeze")
 			return
@@ -540,9 +571,9 @@ func TestVerif_C47_Setup(t *testing.T) {
 			return // nothing to enumerate: the vector cannot be set up at all
 		}
 		for k := range setup {
-			cs := c47Case{Vec: v, FailStep: k, FailCmd: setup[k]}
+			cs := c47Case{Vec: v, FailStep: k, FailCmd: setup[k], FailText: c47FailText(rapid.SampledFrom(c47FailTexts).Draw(rt, "failText"), setup[k])}
 			saveCase("c47", cs)
-			run := c47RunOne(t, v, k)
+			run := c47RunOne(t, v, k, cs.FailText)
 			if run.Res.Frozen {
 				c.Inconclusive("virtual-clock-freeze")
 				continue
